@@ -358,7 +358,7 @@ package parse
 //@ pred rem(t *tree) = ite(cursor(t) >= ntoks(t.lex), 0, ntoks(t.lex) - cursor(t))
 //@ pred tok1ok(t *tree) = tokAt(t.token[1], t.lex.recv - 2, t.lex)
 //@ pred afterNext(t *tree) = t.peekCount <= 1 && (t.peekCount == 1 ==> tok1ok(t)) && t.lex.recv >= t.peekCount + 1
-//@ pred treeOK(t *tree) = t.lex != nil && 0 <= t.peekCount && t.peekCount <= 2 && t.peekCount <= t.lex.recv && 0 <= t.lex.recv && (t.lex.recv >= 1 ==> tokAt(t.token[0], t.lex.recv - 1, t.lex)) && (t.peekCount == 2 ==> tok1ok(t)) && (t.lex.recv >= ntoks(t.lex) ==> t.lex.done) && 0 <= t.token[0].pos && t.token[0].pos <= len(t.lex.input) && 0 <= t.token[1].pos && t.token[1].pos <= len(t.lex.input)
+//@ pred treeOK(t *tree) = t.lex != nil && 0 <= t.peekCount && t.peekCount <= 2 && t.peekCount <= t.lex.recv && 0 <= t.lex.recv && (t.lex.recv >= 1 ==> tokAt(t.token[0], t.lex.recv - 1, t.lex)) && (t.peekCount == 2 ==> tok1ok(t)) && (t.lex.recv >= ntoks(t.lex) ==> t.lex.done) && 0 <= t.token[0].pos && t.token[0].pos <= len(t.lex.input) && 0 <= t.token[1].pos && t.token[1].pos <= len(t.lex.input) && (t.fileLex != nil ==> 0 <= t.filePos && t.filePos <= len(t.fileLex.input))
 //@ pred stepOK(t *tree) = treeOK(t) && cursor(t) >= old(cursor(t)) && t.lex == old(t.lex) && (old(t.lex.done) ==> t.lex.done) && t.aliases == old(t.aliases)
 
 //@ func (*tree).next
@@ -405,16 +405,15 @@ package parse
 //@ func (*tree).errorfAt
 //@   props C05 C19
 //@   requires t.lex != nil && 0 <= pos && pos <= len(t.lex.input)
+//@   requires[file-position-of-a-quoted-sub-expression-in-range;C19] t.fileLex != nil ==> 0 <= t.filePos && t.filePos <= len(t.fileLex.input)
 //@   noreturn
 //@   ghost ln int = 0
 //@   ghost cn int = 0
 //@   ghost ev error = nil
-//@   at call (*lexer).lineNumber#0 assert[message-line-of-pos;C19] arg1 == pos
-//@   at call (*lexer).columnNumber#0 assert[message-col-of-pos;C19] arg1 == pos
-//@   at call (*lexer).lineNumber#1 assert[line-of-pos;C19] arg1 == pos
-//@   at call (*lexer).lineNumber#1 after set ln = res
-//@   at call (*lexer).columnNumber#1 assert[col-of-pos;C19] arg1 == pos
-//@   at call (*lexer).columnNumber#1 after set cn = res
+//@   at call (*lexer).lineNumber#0 assert[line-of-pos-or-of-the-enclosing-command;C19] ite(t.fileLex != nil, arg0 == t.fileLex && arg1 == t.filePos, arg0 == t.lex && arg1 == pos)
+//@   at call (*lexer).lineNumber#0 after set ln = res
+//@   at call (*lexer).columnNumber#0 assert[col-of-pos-or-of-the-enclosing-command;C19] ite(t.fileLex != nil, arg0 == t.fileLex && arg1 == t.filePos, arg0 == t.lex && arg1 == pos)
+//@   at call (*lexer).columnNumber#0 after set cn = res
 //@   at call errortypes.NewErrFilePosf#0 assert[file-line-col;C19] arg0 == t.name && arg1 == ln && arg2 == cn
 //@   at call errortypes.NewErrFilePosf#0 after set ev = res
 //@   at call panic#0 assert[raises-that-error;C19] arg0 == ev
@@ -592,9 +591,15 @@ package parse
 // The nested parser for quoted attribute expressions works on its own fresh
 // tree and scanner, drains that scanner on every exit (C18), and leaves the
 // outer parser's token model untouched.
+// An error inside the quoted expression is reported in the enclosing file, at
+// the token the enclosing parser read last (the command that carries the
+// attribute): positions relative to the attribute value mean nothing to the
+// reader (C19).
 //@ func (*tree).parseQuotedExpr
-//@   props C05 C18
+//@   props C05 C18 C19
+//@   requires treeOK(t)
 //@   pure
+//@   at call (*tree).parseExpr#0 assert[errors-of-the-sub-expression-are-located-in-this-file;C19] arg0.name == t.name && arg0.fileLex == t.lex && arg0.filePos == ite(t.peekCount > 0, t.token[t.peekCount-1].pos, t.token[0].pos)
 //@   ghost lx *lexer = nil
 //@   at call parse.lexExpr#0 assert[nested-scanner-reports-into-the-file;C19] arg0 == t.name
 //@   at call parse.lexExpr#0 after set lx = res
